@@ -30,7 +30,14 @@ pub fn run(out: &mut Out, seed: u64, tier: &str) {
     let n_seq = if tier == "thorough" { 600 } else { 90 };
     let (mut n_ops, mut n_err, mut n_file) = (0usize, 0usize, 0usize);
     for s in 0..n_seq {
-        let m = if s < 10 { library()[s].clone() } else { random_mol(&mut rng) };
+        // every tenth sequence runs on atoms that cannot bond at all or barely (noble gases, alone or next to one ordinary atom):
+        // refusals that depend on "has no bonds" must not be confused with "cannot have bonds"
+        let m = if s < 10 { library()[s].clone() } else if s % 10 == 3 {
+            let pool: [&[usize]; 6] = [&[2, 2], &[18, 10, 18], &[8, 2], &[10, 10, 17], &[2, 1, 1], &[36, 54]];
+            let zs: Vec<usize> = pool[rng.below(pool.len())].to_vec();
+            let xs: Vec<[f64; 3]> = (0..zs.len()).map(|i| [3.5 * i as f64, 0.3 * i as f64, 0.0]).collect();
+            Mol { name: "noble".into(), zs, xs }
+        } else { random_mol(&mut rng) };
         if m.n() > 14 || m.n() == 0 { continue; }
         let syms = m.symbols();
         let refs: Vec<&str> = syms.iter().map(|x| x.as_str()).collect();
